@@ -1018,8 +1018,11 @@ class ExprMixin:
         return Top("set")
 
     def eval_DictComp(self, e, state):
-        pair = ast.Tuple(elts=[e.key, e.value], ctx=ast.Load())
-        ast.copy_location(pair, e)
+        pair = getattr(e, "_osv_pair_twin", None)  # persistent: site ids are keyed by node identity
+        if pair is None:
+            pair = ast.Tuple(elts=[e.key, e.value], ctx=ast.Load())
+            ast.copy_location(pair, e)
+            e._osv_pair_twin = pair
         seq = self._comprehension(e, pair, state)
         if seq is None or state.bottom:
             return Bottom()
